@@ -78,10 +78,15 @@ CLAIMED = {
              "powers, losses, currents from |S|/(sqrt(3) V), loading for current and power mode, angles) for AC and DC; (b) the real "
              "_calc_line_parameter writes the documented per-unit pi parameters r, x, b, g with Z_N = V_N^2 / S_N, from/to bus, status and "
              "RATE_A, and only into the line block; (c) the real branch_vectors returns the documented two-port (ideal transformer "
-             "t e^{j theta} at the from side, then the pi circuit) - Yff, Yft, Ytf, Ytt real and imaginary parts.",
+             "t e^{j theta} at the from side, then the pi circuit) - Yff, Yft, Ytf, Ytt real and imaginary parts; (d) the two-winding "
+             "transformer chain in physical-value form: _calc_r_x_from_dataframe (r, |z|, sign of x), _calc_y_from_dataframe (g, b), "
+             "_calc_nominal_ratio_from_dataframe, _calc_tap_from_dataframe for Ratio (longitudinal), Ideal (step angle) and missing tap "
+             "changers on both sides with and without angles; thorough tier: _wye_delta (T model) has the admittance matrix of the T "
+             "circuit.",
         note="Assumed: A-LOOKUP (block layout of ppc['branch']), numpy element-wise semantics, reals for floats, sin/cos/sqrt as "
-             "uninterpreted functions with sin^2+cos^2=1, sqrt(x)^2=x. Not decided: the transformer build chain (tap changer tables, "
-             "wye-delta, trafo3w star conversion), TDPF, the Newton solver itself (C01), DC line/impedance build."),
+             "uninterpreted functions with sin^2+cos^2=1, sqrt(x)^2=x. Not decided: cross regulators with tap_step_degree, ideal "
+             "shifters given by tap_step_percent, tap tables (C31), trafo3w star conversion, TDPF, the Newton solver itself, "
+             "DC line / impedance build."),
     "C03": dict(
         text="Proof: pl = p_from + p_to (AC) and 0 (DC) for the generic row of every branch element (real result functions); passivity "
              "lemma on the admittances returned by the real branch_vectors: for all complex terminal voltages, r >= 0, g >= 0, any tap "
@@ -270,10 +275,16 @@ CLAIMED = {
              "sequence_to_phase, phase_to_sequence, S_from_VI_elementwise) for 3 x n arrays with arbitrary complex columns: the two "
              "transformations are inverse to each other; a purely positive-sequence solution gives phase quantities of equal "
              "magnitude shifted by -120 / +120 degrees and equal per-phase powers (one third of the total each); for any solution "
-             "the phase powers add up to 3 * sum of the sequence powers. The agreement of runpp_3ph with runpp on a symmetric network "
-             "is only a bounded stand-in (one native run), labelled bounded.",
-        note="Assumed: cos(120 deg) = -1/2, sin(120 deg) = sqrt(3)/2 for the module constants; np.matmul. Not decided: the sequence "
-             "iteration of runpp_3ph, the zero-sequence network build, per-phase nodal balance, the *_3ph result functions beyond the "
+             "the phase powers add up to 3 * sum of the sequence powers. Proof on the real _load_mapping / _get_elements "
+             "(pandapower.pf.runpp_3ph), tables of any length: the per-phase nodal injection S[phase, wye|delta][node] is stored once, "
+             "through the distinct keys of the grouping, grouped by the node of the element's own bus, over exactly the in-service "
+             "elements of that connection type of all four tables, with the element's own phase power (one third of p, q for "
+             "symmetric loads / sgens, generation negative). The agreement of runpp_3ph with runpp on symmetric networks (one with "
+             "busbar sections fused by a bus-bus switch) and the per-phase balance at the fused node are a bounded stand-in (native "
+             "runs), labelled bounded.",
+        note="Assumed: cos(120 deg) = -1/2, sin(120 deg) = sqrt(3)/2 for the module constants; np.matmul; _sum_by_group returns the "
+             "distinct keys with the per-key sums; a store through distinct keys. Not decided: the sequence iteration of runpp_3ph, the "
+             "zero-sequence network build, the nodal balance of the solution itself, the *_3ph result functions beyond the "
              "transformation, that a symmetric network has no zero / negative sequence components."),
 }
 
